@@ -93,6 +93,10 @@ pub fn vq_pos_eq(a: &Position, b: &Position) -> (r: bool)
 """
 
 RENAME_CORPUS = [
+    {"what": "method receiver renamed from a use", "at": "me + me", "delta": 0, "count": 3,
+     "src": "method double(me: Int): Int {\n  me + me\n}\nprintln(string_repr(2.double()))\n"},
+    {"what": "method receiver renamed from a use, with a parameter and a shadowing closure", "at": "me * by", "delta": 0, "count": 3,
+     "src": "method scale(me: Int, by: Int): Int {\n  let f = fun(me: Int) { me + 1 }\n  f(me * by) + me\n}\nprintln(string_repr(3.scale(2)))\n"},
     {"what": "outer variable shadowed by a match payload, used after the match", "at": "let total", "delta": 4, "count": 3,
      "src": "fun f(o: Option<Int>): Int {\n  let total = 100\n  let r = match o {\n    Some(total) => total + 1\n    None => total\n  }\n  r + total\n}\nprintln(string_repr(f(Some(5))))\nprintln(string_repr(f(None)))\n"},
     {"what": "match payload that shadows an outer variable", "at": "Some(total)", "delta": 5, "count": 2,
